@@ -153,6 +153,9 @@ def fork_stream(fn, timeout):
                     os.close(fd)
                 except OSError:
                     pass
+            # whatever the code under test prints (Scheme's `display`, warnings) must not reach the check's stdout,
+            # where only the parent writes VIOLATION / KNOWN-FINDING lines
+            sys.stdout = open(os.devnull, 'w')
             fn(lambda obj: send(w, obj))
         except BaseException:
             code = 3
